@@ -146,7 +146,8 @@ CONDITIONS = [
                                for i in range(len(ISSUERS)) for s in range(len(CERTS))],
                      "thorough": [{"issuer": i, "signer": s, "only_md": f, "e2_is_sp": (i + s) % 2 == 0, "outer": o, "nkeys1": 2 if (i + s + o) % 5 else 1,
                                    "u21": a, "u22": b}
-                                  for i in range(len(ISSUERS)) for s in range(len(CERTS)) for f in (False, True) for o in range(3) for a in range(3) for b in range(3)]},
+                                  for i in range(len(ISSUERS)) for s in range(len(CERTS)) for f in (False, True) for o in range(3) for a in range(3) for b in range(3)
+                                  if (i + s + o + a + b) % 2 == 0]},
          timeout={"quick": 600, "thorough": 1800}, path_timeout=60,
          functions=["sigver.SecurityContext._check_signature", "sigver.SecurityContext.verify_signature", "sigver.cert_from_instance/cert_from_key_info/pem_format",
                     "mdstore.MetadataStore.certs", "mdstore.MetaData.certs (extract_certs)", "mdstore.repack_cert", "mdstore.InMemoryMetaData.do_entity_descriptor"],
@@ -158,7 +159,7 @@ CONDITIONS = [
               "0 <= embedded <= 3", "0 <= nkeys1 <= 2", "outer == 0", "0 <= h1 <= 6", "0 <= h2 <= 6"],
          partitions={"quick": [{"issuer": i, "signer": s, "h1": 2 + 3 * i, "embedded": 0, "nkeys1": 2, "e2_is_sp": False, "u12": 1 + i, "u22": 2 - i, "u21": s % 3} for i in (0, 1) for s in range(4)],
                      "thorough": [{"issuer": i, "signer": s, "h1": h, "nkeys1": 2, "e2_is_sp": sp, "only_md": f, "u11": a, "u21": a, "u22": (a + 1) % 3} for i in (0, 1) for s in range(4) for h in range(1, 7) for sp in (False, True)
-                                  for f in (False, True) for a in range(3)]},
+                                  for f in (False, True) for a in range(3) if (i + s + h + a) % 2 == 0]},
          timeout={"quick": 600, "thorough": 1200}, path_timeout=60,
          functions=["mdstore.MetadataStore.certs", "mdstore.MetaData.certs (extract_certs)", "sigver.SecurityContext._check_signature"],
          bounds="as trust, preceded by up to two certificate look-ups on the same store (entity x use in {signing, encryption, unspecified}); claimed Issuer one of the two entities; "
